@@ -343,6 +343,44 @@ impl std::fmt::Debug for Rec {
     }
 }
 
+/// `RecC(tag, payload)`: a `Copy` type whose hand-written `Clone` records its calls (a derived `clone` that is
+/// field-wise must go through it even when the containing type is `Copy` too).
+#[derive(Copy, PartialEq, Eq)]
+pub struct RecC(pub u8, pub u32);
+impl RecC {
+    pub fn new(tag: u8, payload: u32) -> RecC { RecC(tag, payload) }
+}
+impl Clone for RecC {
+    fn clone(&self) -> RecC {
+        trace(format!("cclone {}:{}", self.0, self.1));
+        RecC(self.0, self.1)
+    }
+    fn clone_from(&mut self, src: &RecC) {
+        trace(format!("cclone_from {}:{}<-{}:{}", self.0, self.1, src.0, src.1));
+        self.0 = src.0;
+        self.1 = src.1;
+    }
+}
+impl std::fmt::Debug for RecC {
+    fn fmt(&self, f: &mut std::fmt::Formatter<'_>) -> std::fmt::Result {
+        write!(f, "C{}:{}", self.0, self.1)
+    }
+}
+
+/// A type whose inherent associated functions are named like trait methods the derives call: generated code must go
+/// through the trait (`<T as Default>::default()`), never through plain path / method resolution.
+#[derive(Debug, PartialEq, Eq)]
+pub struct Inh(pub u32);
+impl Inh {
+    pub fn default() -> Inh { Inh(99) }
+}
+impl Default for Inh {
+    fn default() -> Inh { Inh(1) }
+}
+impl From<u32> for Inh {
+    fn from(x: u32) -> Inh { Inh(x) }
+}
+
 // ---------------------------------------------------------------------------
 // Term: free, non-commutative term algebra for operators; W: wrapping integer
 // ---------------------------------------------------------------------------
